@@ -11,11 +11,11 @@ package main
 // names the batch.
 
 import (
-	"math"
 	"bytes"
 	"encoding/binary"
 	"encoding/xml"
 	"fmt"
+	"math"
 	"os"
 	"sort"
 	"strings"
@@ -98,9 +98,9 @@ func obsErr(s string, err error) string {
 
 type c17Case struct {
 	root   string
-	shape  string                  // "geom" (one geometry argument, joins mixes) or "own"
-	accept func(g geom.T) bool     // shape geom: which geometries the function takes
-	gen    func(r *Rng) []any      // shape own
+	shape  string              // "geom" (one geometry argument, joins mixes) or "own"
+	accept func(g geom.T) bool // shape geom: which geometries the function takes
+	gen    func(r *Rng) []any  // shape own
 	run    func(a []any) string
 }
 
@@ -533,6 +533,67 @@ func init() {
 		g2, err2 := ewkb.Read(bytes.NewReader(a[0].([]byte)))
 		s, err3 := ewkbhex.Decode(fmt.Sprintf("%x", a[0].([]byte)))
 		return snapGeom(g) + obsErr(snapGeom(g2), err2) + obsErr(snapGeom(s), err3)
+	})
+	// database/sql scanners: the column value arrives as binary, or — as a text-protocol driver
+	// delivers it — as the hex text of the same bytes; either way it is the caller's buffer
+	scanGen := func(ewkbFmt bool) func(r *Rng) []any {
+		return func(r *Rng) []any {
+			for {
+				t := r.wktTree(1, xyzmLayouts[r.Intn(4)])
+				g := t.build()
+				var b []byte
+				var err error
+				if ewkbFmt {
+					b, err = ewkb.Marshal(g, []binary.ByteOrder{ewkb.XDR, ewkb.NDR}[r.Intn(2)])
+				} else {
+					if !noEmptyPoint(g) {
+						continue
+					}
+					b, err = wkb.Marshal(g, []binary.ByteOrder{wkb.XDR, wkb.NDR}[r.Intn(2)])
+				}
+				if err != nil {
+					continue
+				}
+				switch r.Intn(4) {
+				case 0:
+					b = []byte(fmt.Sprintf("%x", b))
+				case 1:
+					b = []byte(fmt.Sprintf("%X", b))
+				}
+				return []any{b}
+			}
+		}
+	}
+	ownCase("encoding/ewkb.(*Point).Scan", scanGen(true), func(a []any) string {
+		src := a[0].([]byte)
+		var p ewkb.Point
+		var ls ewkb.LineString
+		var pg ewkb.Polygon
+		var mp ewkb.MultiPoint
+		var mls ewkb.MultiLineString
+		var mpg ewkb.MultiPolygon
+		var gc ewkb.GeometryCollection
+		out := ""
+		for _, sc := range []interface{ Scan(interface{}) error }{&p, &ls, &pg, &mp, &mls, &mpg, &gc} {
+			out += fmt.Sprint(sc.Scan(src) == nil)
+		}
+		return out
+	})
+	ownCase("encoding/wkb.(*Geom).Scan", scanGen(false), func(a []any) string {
+		src := a[0].([]byte)
+		var g wkb.Geom
+		var p wkb.Point
+		var ls wkb.LineString
+		var pg wkb.Polygon
+		var mp wkb.MultiPoint
+		var mls wkb.MultiLineString
+		var mpg wkb.MultiPolygon
+		var gc wkb.GeometryCollection
+		out := ""
+		for _, sc := range []interface{ Scan(interface{}) error }{&g, &p, &ls, &pg, &mp, &mls, &mpg, &gc} {
+			out += fmt.Sprint(sc.Scan(src) == nil)
+		}
+		return out + snapGeom(g.T)
 	})
 	ownCase("encoding/geojson.Unmarshal", encGen(func(g geom.T) ([]byte, bool) {
 		b, err := geojson.Marshal(g)
